@@ -10,6 +10,7 @@ import LndModel.C01.Inv3
 import LndModel.C01.Mirror
 import LndModel.C01.Cap
 import LndModel.C01.Sys
+import LndModel.C01.Moves
 set_option linter.unusedSimpArgs false
 
 namespace LndModel.C01
@@ -269,6 +270,81 @@ theorem balance_moves_receiveCommit {n n' : Node} {sv : SigView} (hI : Inv n)
     simp only [Prod.mk.injEq] at h
     exact absurd h.1 (by intro e; exact hne e)
 
+
+/-! ### balance moves, stated over the HTLC sets of consecutive commitments -/
+
+theorem ths_init {n : Node} (h : InitOK n) : THs n := by
+  intro c
+  unfold TH specKeys specOf
+  cases c
+  · simp [Node.chain, CChain.tip, h.pendL, h.htlcsL, h.logL, h.logR]
+  · simp [Node.chain, CChain.tip, h.pendR, h.htlcsR, h.logL, h.logR]
+
+/-- **balance_moves_only_by_htlc** (must), over HTLC sets, signing side.  In every reachable
+    state, when `SignNextCommitment` succeeds, compare the previous remote commitment `old` with
+    the new one `new` (HTLCs identified by direction, index and amount): each balance, with the
+    fee added back to the opener, changes exactly by
+    − the HTLCs of `new` that were not on `old` and were added by that party,
+    + the HTLCs of `old` gone from `new` that this party had offered and the peer failed,
+    + the HTLCs of `old` gone from `new` that the peer had offered and this party settled. -/
+theorem balance_moves_sign_htlcs (n0 : Node) (h0 : InitOK n0) (ops : List Op) {n' : Node} {sv : Option SigView}
+    (hs : (n0.run ops).sign = (.ok, n', sv)) :
+    let n := n0.run ops
+    let old := n.chainR.tip
+    let new := n'.chainR.tip
+    new.our + feeBack n.cfg.initiator new +
+        amtOf (new.htlcs.filter (fun h => !h.incoming && !hasHtlc old.htlcs h)) =
+      old.our + feeBack n.cfg.initiator old +
+        (amtOf (old.htlcs.filter (fun h => h.incoming && !hasHtlc new.htlcs h && settledIn n.logL.entries h.idx)) +
+         amtOf (old.htlcs.filter (fun h => !h.incoming && !hasHtlc new.htlcs h && failedIn n.logR.entries h.idx))) ∧
+    new.their + feeBack (!n.cfg.initiator) new +
+        amtOf (new.htlcs.filter (fun h => h.incoming && !hasHtlc old.htlcs h)) =
+      old.their + feeBack (!n.cfg.initiator) old +
+        (amtOf (old.htlcs.filter (fun h => !h.incoming && !hasHtlc new.htlcs h && settledIn n.logR.entries h.idx)) +
+         amtOf (old.htlcs.filter (fun h => h.incoming && !hasHtlc new.htlcs h && failedIn n.logL.entries h.idx))) := by
+  intro n old new
+  have hI : Inv n := inv_run (inv_init h0) ops
+  have hT : THs n := ths_run (inv_init h0) (ths_init h0) ops
+  obtain ⟨cm, n1, _, hf, htip⟩ := sign_ok_fetch hs
+  have covL : ∀ e ∈ n.logL.entries, e.onChain .rem = true → e.logIndex < n.logL.logIndex :=
+    fun e he _ => hI.logL.idxBound e he
+  obtain ⟨s1, s2, s3, s4, s5, s6⟩ := side_sums hI (hT .rem) covL hI.covR hf
+  obtain ⟨m1, m2⟩ := balance_moves_sign hI hs
+  simp only [Node.chain] at s1 s2 s3 s4 s5 s6
+  show _ ∧ _
+  simp only [new, old, htip] at *
+  rw [s1, s2, s3, s4, s5, s6]
+  exact ⟨m1, m2⟩
+
+/-- the same on the receiving side (`ReceiveNewCommitment`, local chain). -/
+theorem balance_moves_receiveCommit_htlcs (n0 : Node) (h0 : InitOK n0) (ops : List Op) {n' : Node} {sv : SigView}
+    (hs : (n0.run ops).receiveCommit sv = (.ok, n')) :
+    let n := n0.run ops
+    let old := n.chainL.tip
+    let new := n'.chainL.tip
+    new.our + feeBack n.cfg.initiator new +
+        amtOf (new.htlcs.filter (fun h => !h.incoming && !hasHtlc old.htlcs h)) =
+      old.our + feeBack n.cfg.initiator old +
+        (amtOf (old.htlcs.filter (fun h => h.incoming && !hasHtlc new.htlcs h && settledIn n.logL.entries h.idx)) +
+         amtOf (old.htlcs.filter (fun h => !h.incoming && !hasHtlc new.htlcs h && failedIn n.logR.entries h.idx))) ∧
+    new.their + feeBack (!n.cfg.initiator) new +
+        amtOf (new.htlcs.filter (fun h => h.incoming && !hasHtlc old.htlcs h)) =
+      old.their + feeBack (!n.cfg.initiator) old +
+        (amtOf (old.htlcs.filter (fun h => !h.incoming && !hasHtlc new.htlcs h && settledIn n.logR.entries h.idx)) +
+         amtOf (old.htlcs.filter (fun h => h.incoming && !hasHtlc new.htlcs h && failedIn n.logL.entries h.idx))) := by
+  intro n old new
+  have hI : Inv n := inv_run (inv_init h0) ops
+  have hT : THs n := ths_run (inv_init h0) (ths_init h0) ops
+  obtain ⟨cm, n1, _, hf, htip⟩ := receiveCommit_ok_fetch hs
+  have covR : ∀ e ∈ n.logR.entries, e.onChain .loc = true → e.logIndex < n.logR.logIndex :=
+    fun e he _ => hI.logR.idxBound e he
+  obtain ⟨s1, s2, s3, s4, s5, s6⟩ := side_sums hI (hT .loc) hI.covL covR hf
+  obtain ⟨m1, m2⟩ := balance_moves_receiveCommit hI hs
+  simp only [Node.chain] at s1 s2 s3 s4 s5 s6
+  show _ ∧ _
+  simp only [new, old, htip] at *
+  rw [s1, s2, s3, s4, s5, s6]
+  exact ⟨m1, m2⟩
 
 /-! ### agreement of the two peers -/
 
@@ -533,5 +609,20 @@ example : (demoSys.lrun [.actA (.add 5000000 144 7), .actA .sign, .dlvAB]).map
 example : (demoSys.lrun [.actA (.add 5000000 144 7), .actA .sign, .dlvAB, .dlvAB, .dlvBA]).map
     (fun s => (s.ab.length, s.ba.length, s.a.chainR.pend.length, s.b.chainL.tail.height)) = some (0, 0, 0, 1) := by
   decide
+
+
+/-- a reachable state in which `balance_moves_sign_htlcs` speaks about a removed HTLC: an incoming
+    HTLC is locked in, we settle it and sign; the old remote commitment carries it, the new one
+    does not, and our balance (fee added back) grows by exactly its 5 000 000 msat. -/
+example :
+    let n := demoNode.run [.receiveHTLC 0 5000000 144 7,
+      .receiveCommit ⟨1, 253, [⟨499774, .toLocal, 0, 0⟩, ⟨495000, .toRemote, 0, 0⟩, ⟨5000, .received, 144, 7⟩]⟩,
+      .revoke, .sign, .receiveRevocation, .settle 0 true]
+    (n.sign).1 = .ok ∧
+    (n.chainR.tip.htlcs.length, (n.sign).2.1.chainR.tip.htlcs.length) = (1, 0) ∧
+    amtOf (n.chainR.tip.htlcs.filter (fun h => h.incoming && !hasHtlc (n.sign).2.1.chainR.tip.htlcs h &&
+      settledIn n.logL.entries h.idx)) = 5000000 ∧
+    (n.sign).2.1.chainR.tip.our + 1000 * (n.sign).2.1.chainR.tip.fee =
+      n.chainR.tip.our + 1000 * n.chainR.tip.fee + 5000000 := by decide
 
 end LndModel.C01
